@@ -242,6 +242,7 @@ func TestHostPortPrefix(t *testing.T) {
 // ---------------------------------------------------------------- URL
 
 type urlLocal struct {
+	prev *urlutil.URL // the previous accepted URL of this worker
 	e, n, accepted, stdNonIdem, jsonEscaped, invalidUTF8 int64
 }
 
@@ -266,6 +267,11 @@ func urlCase(r *mon.Run, l *urlLocal, raw string) {
 		return
 	}
 	l.e += 2
+	// another URL marshalled in between must not disturb the text already handed out
+	if l.prev != nil {
+		_, _ = l.prev.MarshalText()
+	}
+	l.prev = u
 	var tb urlutil.URL
 	terr := error(nil)
 	if len(txt) > 0 {
